@@ -18,7 +18,7 @@ RULE = ('roundtrip units: random lists of 0..8 (key,value) pairs, keys non-empty
         'all three of its output modes under a step budget, plus random junk incl. lone surrogates-free Unicode. Non-trivial = '
         'the pair list has a repeated key or a character that needs escaping; distinct = distinct encoded string.')
 PYOPT = {'quick': 1, 'thorough': 1}     # one unit of every kind is also served by an interpreter started with -O (assert statements compiled out)
-REQUIRED = ['units_run_under_python_-O', 'attribute_access_compared', 'query_replaced_after_a_first_read', 'body_consumed_before_forms', 'roundtrips_query', 'roundtrips_forms', 'roundtrips_params', 'repeated_key_cases', 'list_values_seen',
+REQUIRED = ['units_run_under_python_-O', 'params_read_before_query_and_forms', 'attribute_access_compared', 'query_replaced_after_a_first_read', 'body_consumed_before_forms', 'roundtrips_query', 'roundtrips_forms', 'roundtrips_params', 'repeated_key_cases', 'list_values_seen',
             'totality_strings', 'via_wsgi', 'chunked_forms']
 EXHAUSTIVE = {'quick': False, 'thorough': False,
               'quick_note': 'totality sweep is complete for all strings of length<=6 over {a,=,&,%,+,2}',
@@ -201,11 +201,16 @@ def one_roundtrip(ctx, app, seen, rng, pairs, exp, enc, mode, wit):
         body = encode(rng, fp, 'plus').encode('ascii')
         env = make_environ('POST', '/q', qs=encode(rng, qp, 'plus'), body=body, content_type='application/x-www-form-urlencoded')
         rq = ombott.Request(env, config={'max_memfile_size': 4096})
-        _cmp(ctx, 'Request.query', rq.query, model(qp), wit)
-        _cmp(ctx, 'Request.forms', rq.forms, model(fp), wit)
         union = model(qp)
         union.update(model(fp))
+        if len(pairs) % 2:
+            # the combined view is read first: it must not leave anything behind in the two views it is made of
+            ctx.count('params_read_before_query_and_forms')
+            _cmp(ctx, 'Request.params', rq.params, union, wit)
+        _cmp(ctx, 'Request.query', rq.query, model(qp), wit)
+        _cmp(ctx, 'Request.forms', rq.forms, model(fp), wit)
         _cmp(ctx, 'Request.params', rq.params, union, wit)
+        _cmp(ctx, 'Request.query(again)', rq.query, model(qp), wit)
         ctx.count('roundtrips_query')
         ctx.count('roundtrips_forms')
         ctx.count('roundtrips_params')
